@@ -118,6 +118,7 @@ void fold_str(const char *s);
 void probe(const char *name, uint64_t n = 1);
 void mark_progress();     // current fiber did useful work
 void global_progress();   // the system as a whole made progress (liveness)
+void request_abort();     // leave the parallel region at the next scheduling point
 void harness_yield(const void *addr = nullptr); // explicit scheduling point
 int lock_holder(const void *addr);              // fiber holding lock, or -1
 // lock tracking at the level of individual std::atomic operations (used by
